@@ -58,11 +58,11 @@ def main():
         if a.startswith("--") or a == tier:
             continue
         if a == "all":
-            paths += sorted(glob.glob(os.path.join(VERIF, "mutants", "*.json")))
+            paths += sorted(p for p in glob.glob(os.path.join(VERIF, "mutants", "*.json")) if os.path.basename(p) != "results.json")
         elif os.path.exists(a):
             paths.append(a)
         else:
-            paths += sorted(glob.glob(os.path.join(VERIF, "mutants", a + "*.json")))
+            paths += sorted(p for p in glob.glob(os.path.join(VERIF, "mutants", a + "*.json")) if os.path.basename(p) != "results.json")
     rp = os.path.join(VERIF, "mutants", "results.json")
     results = json.load(open(rp)) if os.path.exists(rp) else {}
     for p in paths:
